@@ -118,11 +118,58 @@ def run_property(pid, tier, seed, repo=None, write=True):
             known_hits.append({"key": f.fullkey(), "what": known_keys[f.fullkey()].get("what", "")})
         else:
             viol.append(f)
+    extra = None
+    if tier == "thorough" and repo is None and write:
+        extra = {"mutant_bank": mutant_bank(pid)}
     wall = time.time() - t0
     res.wall = wall
     if write:
-        write_evidence(pid, tier, seed, res, ctx, wall, known_hits=known_hits)
+        write_evidence(pid, tier, seed, res, ctx, wall, extra=extra, known_hits=known_hits)
     return res, viol, known_hits
+
+
+MUTANT_PROPS = {
+    "revert_10cab46": ["C16"], "revert_15b3ffd": ["C05", "C14"], "revert_34e570a": ["C03", "C14"], "revert_9ca561a": ["C06", "C14"],
+    "revert_c02e67c": ["C10", "C03"], "revert_ccc525b": ["C09"], "r2_": ["C10"], "r4_": ["C15"],
+}
+
+
+def mutant_bank(pid):
+    """thorough tier: apply every kept mutant of this property (seeded/<pid>-*, mutants/*) to a scratch copy of /repo and record
+    which rules report it; the behaviour-preserving edits (mutants/neutral_*) must stay silent.  Reported in the evidence only."""
+    import glob
+    import shutil
+    import subprocess
+    import tempfile
+
+    bank = []
+    for d in sorted(glob.glob(os.path.join(core.VERIF, "seeded", pid + "-*"))):
+        bank.append(("seeded/" + os.path.basename(d), os.path.join(d, "patch.diff"), "breaking"))
+    for m in sorted(glob.glob(os.path.join(core.VERIF, "mutants", "*.patch"))):
+        name = os.path.basename(m)[:-6]
+        if name.startswith("neutral_"):
+            bank.append(("mutants/" + name, m, "neutral"))
+            continue
+        for k, props_ in MUTANT_PROPS.items():
+            if name.startswith(k) and pid in props_:
+                bank.append(("mutants/" + name, m, "breaking"))
+    out = []
+    for (name, patch, kind) in bank:
+        w = tempfile.mkdtemp(prefix="nbbank.", dir="/var/tmp")
+        try:
+            subprocess.run(["rsync", "-a", "--exclude", "target", "--exclude", ".git", core.REPO + "/", w + "/"], check=True)
+            p = subprocess.run(["patch", "-p1", "-s", "-i", patch], cwd=w, stdout=subprocess.PIPE, stderr=subprocess.STDOUT)
+            if p.returncode != 0:
+                out.append({"mutant": name, "kind": kind, "applies": False})
+                continue
+            r2_, viol, _ = run_property(pid, "quick", 0, repo=w, write=False)
+            rules = sorted({f.rule for f in viol})
+            out.append({"mutant": name, "kind": kind, "applies": True, "reported_by": rules, "as_expected": bool(rules) == (kind == "breaking")})
+        except Exception as e:
+            out.append({"mutant": name, "kind": kind, "error": str(e)[:200]})
+        finally:
+            shutil.rmtree(w, ignore_errors=True)
+    return out
 
 
 def cmd_check(args):
